@@ -208,6 +208,19 @@ pub fn cmd_trace(args: &[String]) {
             if let Ok(txt) = std::fs::read_to_string(&tmp) { out.write_all(txt.as_bytes()).unwrap(); }
             std::fs::remove_file(&tmp).ok();
         }
+        // further threads call the entry point at the same time, each for the first time in its thread (Rng.tla: Spawn
+        // changes nothing, the threads' values join the one history of the entry point)
+        if cost == 0 {
+            let barrier = std::sync::Arc::new(std::sync::Barrier::new(4));
+            let hs: Vec<_> = (0..4).map(|t| { let b = barrier.clone(); std::thread::spawn(move || {
+                b.wait();
+                let mut vs = Vec::new();
+                for _ in 0..3 { if let Ok(v) = catch(|| f()) { vs.push((t, v)); } }
+                vs
+            }) }).collect();
+            writeln!(out, "{}", json!({"ev": "spawn", "e": name, "v": []})).unwrap();
+            for h in hs { if let Ok(vs) = h.join() { for (t, v) in vs { writeln!(out, "{}", json!({"ev": "draw", "e": name, "v": v, "thread": t})).unwrap(); } } }
+        }
         writeln!(out, "{}", json!({"ev": "done", "e": name, "v": []})).unwrap();
     }
     // the OS random source fails (seccomp filter in a forked child): a call may fail, a returned value must be fresh
